@@ -24,6 +24,7 @@ import (
 	"os"
 	"path/filepath"
 	"reflect"
+	"runtime"
 	"runtime/debug"
 	"sort"
 	"strings"
@@ -475,11 +476,10 @@ func (w *c18World) applyAPI(log []int, tr *c18Trace, dir string) error {
 func (w *c18World) restarts(log []int, tr *c18Trace, dir string) error {
 	ctx := context.Background()
 	n := len(log)
-	for k := 0; k <= n; k++ {
+	// k = 0 is not repeated here: booting from the base image and applying the whole log as
+	// one batch / entry by entry are the single-batch partition and the reference run.
+	for k := 1; k <= n; k++ {
 		for mode := 0; mode < 2; mode++ { // 0: one batch, 1: entry by entry
-			if n == 0 && mode == 1 {
-				continue
-			}
 			if mode == 1 && k < n && !w.allRestartModes {
 				continue
 			}
@@ -633,15 +633,41 @@ func (in *c18Inst) Check() error {
 
 // ---------------------------------------------------------------- setup
 
-func c18NewWorld(r *ev.R, name string, world byte, file bool) (*c18World, error) {
-	w := &c18World{name: name, file: file, allRestartModes: r.Thorough(), byLabel: map[string]int{}, outcomes: map[string]int64{}, changedBy: map[string]int64{}}
+// c18Deep lists the commands of the "deep" menus (chosen for interplay: the complete replica
+// move workflow, task failure / retry, bootstrap progress, revision-fenced variants).
+var c18Deep = map[byte][]string{
+	'E': {"init", "init-other-cluster", "node3-leaving", "node3-renamed/rev0", "node2-removed", "voters-1/rev0", "voters-13", "promote3", "hashslots-moved", "backup-empty",
+		"mcp-on-owner1", "mcp-on-owner2", "boot1/rev1", "boot2", "xfer1", "boot1-unknown-peer", "move2", "commit2", "done-s1boot", "done-s1boot/rev+1", "fail-s1boot",
+		"prog-n1-done", "health-n1-alive", "health-n2/rev+1", "health-n9-unknown", "unknown-kind"},
+	'L': {"node3-leaving", "boot1/rev1", "boot2", "xfer1", "move2", "move2/rev+1", "move1", "adv-p1-remove", "adv-p1-promote", "adv-p2-remove", "adv-p2-commit", "adv-p3-commit",
+		"adv-p1-remove/attempt1", "commit2", "commit2/attempt1", "done-s1boot", "done-s1boot/attempt1", "done-s2move", "fail-s1boot", "fail-s2move", "prog-n1-done", "prog-n2-failed",
+		"prog-n2-done/pattempt0", "health-n1-alive"},
+}
+
+func c18NewWorld(r *ev.R, name string, world byte, file bool, menu string) (*c18World, error) {
+	w := &c18World{name: name, file: file, allRestartModes: r.Thorough() && menu != "deep", byLabel: map[string]int{}, outcomes: map[string]int64{}, changedBy: map[string]int64{}}
 	r0 := uint64(1)
 	var pre []command.Command
 	if world == 'L' {
 		pre = c18Preamble()
 		r0 = uint64(len(pre))
 	}
-	w.menu = c18Menu(world, r0, r.Thorough() || r.Replay() != nil)
+	w.menu = c18Menu(world, r0, menu != "quick")
+	if menu == "deep" {
+		var sub []c18Cmd
+		for _, l := range c18Deep[world] {
+			found := false
+			for _, c := range w.menu {
+				if c.label == l {
+					sub, found = append(sub, c), true
+				}
+			}
+			if !found {
+				return nil, fmt.Errorf("deep menu names unknown command %q", l)
+			}
+		}
+		w.menu = sub
+	}
 	for i, c := range w.menu {
 		if _, dup := w.byLabel[c.label]; dup {
 			return nil, fmt.Errorf("duplicate menu label %q", c.label)
@@ -748,49 +774,68 @@ func TestVerifC18(t *testing.T) {
 	defer r.Finish()
 	// The live heap is tiny and the allocation rate huge (every apply clones the state several
 	// times): collect by memory limit instead of by growth ratio.
-	defer debug.SetGCPercent(debug.SetGCPercent(-1))
-	defer debug.SetMemoryLimit(debug.SetMemoryLimit(768 << 20))
+	// A pointer-free ballast makes the collector run once per ~ballast bytes allocated while the
+	// spans stay mapped and are reused (no page-fault / madvise churn).
+	ballast := make([]byte, 384<<20)
+	defer runtime.KeepAlive(ballast)
+	_ = debug.SetGCPercent
 	defer func() {
 		for _, d := range c18Cleanup {
 			os.RemoveAll(d)
 		}
 	}()
 
+	// menu: "quick" = sub-menu, "full" = every command of the world, "deep" = the explicit
+	// interplay sub-menu used for the longest logs.
 	type plan struct {
 		name  string
 		world byte
 		file  bool
+		menu  string
 		depth int
 	}
+	thoroughPlans := []plan{
+		{"fsm-empty-start/mem", 'E', false, "full", 3},
+		{"fsm-tasks-start/mem", 'L', false, "full", 3},
+		{"fsm-empty-start/statefile", 'E', true, "quick", 3},
+		{"fsm-tasks-start/statefile", 'L', true, "quick", 3},
+		{"fsm-tasks-start/mem-deep", 'L', false, "deep", 4},
+		{"fsm-empty-start/mem-deep", 'E', false, "deep", 4},
+	}
 	plans := []plan{
-		{"fsm-empty-start/mem", 'E', false, ev.Pick(r, 3, 4)},
-		{"fsm-tasks-start/mem", 'L', false, ev.Pick(r, 3, 4)},
+		{"fsm-empty-start/mem", 'E', false, "quick", 3},
+		{"fsm-tasks-start/mem", 'L', false, "quick", 3},
 	}
 	if r.Thorough() {
-		plans = append(plans,
-			plan{"fsm-empty-start/statefile", 'E', true, 3},
-			plan{"fsm-tasks-start/statefile", 'L', true, 3},
-		)
+		plans = thoroughPlans
 	}
 	if rf := r.Replay(); rf != nil {
-		// the replay names its system; only that world is built
+		// the replay names its system and tier; only that world is built, with the same menu
 		var pl struct {
 			System string `json:"system"`
 		}
 		_ = json.Unmarshal(rf.Replay, &pl)
-		all := []plan{{"fsm-empty-start/mem", 'E', false, 5}, {"fsm-tasks-start/mem", 'L', false, 5}, {"fsm-empty-start/statefile", 'E', true, 5}, {"fsm-tasks-start/statefile", 'L', true, 5}}
+		cands := plans
+		if rf.Tier == "thorough" {
+			cands = thoroughPlans
+		}
 		plans = nil
-		for _, p := range all {
+		for _, p := range cands {
 			if p.name == pl.System {
+				p.depth = 6
 				plans = append(plans, p)
 			}
+		}
+		if len(plans) == 0 {
+			r.HarnessError("replay: unknown system %q for tier %q", pl.System, rf.Tier)
+			return
 		}
 	}
 
 	var worlds []*c18World
 	var results []mc.Result
 	for _, p := range plans {
-		w, err := c18NewWorld(r, p.name, p.world, p.file)
+		w, err := c18NewWorld(r, p.name, p.world, p.file, p.menu)
 		if err != nil {
 			r.HarnessError("%s: %v", p.name, err)
 			return
@@ -849,7 +894,7 @@ func TestVerifC18(t *testing.T) {
 	r.Guard("all-result-classes-seen", tot["changed"] >= 100 && tot["noop"] >= 100 && tot["rejected"] >= 100 && tot["updated"] >= 10,
 		"last-entry results: changed=%d noop=%d rejected=%d updated=%d (all classes: %v)", tot["changed"], tot["noop"], tot["rejected"], tot["updated"], tot)
 	r.Guard("every-kind-applied-and-changing", len(kindsSeen) >= 16 && len(missingChanged) == 0, "command kinds seen=%d (incl. the unknown kind); kinds that never produced a Changed result: %v", len(kindsSeen), missingChanged)
-	r.Guard("reject-and-noop-reasons-diverse", len(reasonList) >= 30, "%d distinct (class,reason) pairs: %s", len(reasonList), strings.Join(reasonList, " "))
+	r.Guard("reject-and-noop-reasons-diverse", len(reasonList) >= ev.Pick(r, 22, 25), "%d distinct (class,reason) pairs: %s", len(reasonList), strings.Join(reasonList, " "))
 	r.Guard("batches-with-several-changes", twoChanged >= 100 && rollback >= 10, "batches containing >=2 Changed entries=%d, batches with an invalid_state rollback after a Changed entry=%d, partitions executed=%d", twoChanged, rollback, partitions)
 	r.Guard("restarts-from-persisted-state", restartsPersisted >= 100 && already >= 100 && preInit >= 10, "restarts from a persisted image=%d, re-applied entries answered already_applied=%d, rejected entries before any state file exists=%d", restartsPersisted, already, preInit)
 	if r.Thorough() {
